@@ -211,3 +211,13 @@ func (dc *Decoder) open13(x *Decoded, rec []byte, cidLen int, fromClient bool) {
 	x.Epoch = uint16(uh.EpochLow)
 	x.Err = "opens under no reference generation"
 }
+
+// SetExpected tells the decoder the next expected DTLS 1.3 record sequence number of one direction and
+// epoch (needed after a harness-made jump of the counter: the header carries only the low bits).
+func (dc *Decoder) SetExpected(fromClient bool, epoch uint16, seq uint64) {
+	side := "s"
+	if fromClient {
+		side = "c"
+	}
+	dc.expected[fmt.Sprintf("%s%d", side, epoch)] = seq
+}
